@@ -81,6 +81,16 @@ def handle : Handler := fun op args =>
     match MerkleBlock.verify dsha256 total hs flags root with
     | .ok acc => some ("ok " ++ showList hx acc)
     | .error e => some ("err " ++ e.pyName)
+  -- `pmt_verify_after <net> …`: the harness first parses a merkleblock message on ANOTHER network (own header layout) in the
+  -- same process; the Bitcoin verdict is that of `pmt_verify` alone (no state is shared between networks)
+  | "pmt_verify_after", _net :: total :: hs :: flags :: root :: _tag => do
+    let total ← parseNat? total
+    let hs ← parseList? parseHex? hs
+    let flags ← parseHex? flags
+    let root ← parseHex? root
+    match MerkleBlock.verify dsha256 total hs flags root with
+    | .ok acc => some ("ok " ++ showList hx acc)
+    | .error e => some ("err " ++ e.pyName)
   -- Block.from_bin(b) -> as_bin(), id(), len(txs)   (an optional 3rd argument is a harness tag, ignored)
   | "block_rt", c :: data :: _tag => do
     let c ← DriverLib.parseCoin? c
